@@ -85,6 +85,18 @@ SLICES = {
     "gen_slice_arm": [("/*SLICE*/", "src/builtin/generators.rs", "block", r"Self::Slice\(gen, start, end\)\s*=>\s*either_g\(\{", "_iter")],
     "take_while_loop": [("/*SLICE*/", "src/builtin/sequence.rs", "stmt", r"for \(\(i, item\), search\) in search\(", "add_sequence_take_while")],
     "overload_rank": [("/*SLICE*/", "src/compilation_scope.rs", "tail", r"let mut exact_matches = vec!\[\];", "resolve_overload")],
+    "mapping_kernel": [
+        ("/*SLICE:keyloc*/", "src/builtin/mapping.rs", "stmt", r"#\[derive\(Debug\)\]\s*enum KeyLocation", None),
+        ("/*SLICE:locate*/", "src/builtin/mapping.rs", "fn", "locate", None),
+        ("/*SLICE:get*/", "src/builtin/mapping.rs", "fn", "get", None),
+        ("/*SLICE:try_put_located*/", "src/builtin/mapping.rs", "fn", "try_put_located", None),
+        ("/*SLICE:put_located*/", "src/builtin/mapping.rs", "fn", "put_located", None),
+        ("/*SLICE:put*/", "src/builtin/mapping.rs", "fn", "put", None),
+        ("/*SLICE:try_put*/", "src/builtin/mapping.rs", "fn", "try_put", None),
+        ("/*SLICE:new*/", "src/builtin/mapping.rs", "fn", "new", None),
+        ("/*SLICE:pop_rebuild*/", "src/builtin/mapping.rs", "expr", r"(let mut new_dict = .*?\.collect\(\)\);)", "add_mapping_pop"),
+        ("/*SLICE:pop_new*/", "src/builtin/mapping.rs", "expr", r"manage_native!\(\s*(XMapping::new\(mapping\.hash_func\.clone\(\), mapping\.eq_func\.clone\(\), new_dict, [^)]*\))", "add_mapping_pop"),
+    ],
     "trampoline": [
         ("/*SLICE*/", "src/runtime_scope.rs", "block", r"XFunction::UserFunction\s*\{\s*template,\s*output\s*\}\s*=>\s*\{", "eval_func_with_values"),
     ],
@@ -104,7 +116,7 @@ def generate(real_dir):
             src = open(os.path.join(core.REPO, rel)).read()
             if scope:
                 src = function_text(src, scope)
-            body = block_after(src, rx) if mode == "block" else stmt_from(src, rx) if mode == "stmt" else tail_from(src, rx) if mode == "tail" else expr_group(src, rx)
+            body = function_text(src, rx) if mode == "fn" else block_after(src, rx) if mode == "block" else stmt_from(src, rx) if mode == "stmt" else tail_from(src, rx) if mode == "tail" else expr_group(src, rx)
             if marker not in tpl:
                 raise core.Inconclusive("slice template %s has no marker %s" % (name, marker))
             tpl = tpl.replace(marker, body)
